@@ -9,6 +9,52 @@ ALL = ["C%02d" % i for i in range(1, 21)]
 
 # id -> (category, technique, level text, level note, design ref)
 CHECKS = {
+    "C01": ("model_checking",
+            "explicit-state BFS over composeinfo descriptions (deviation bound k edits from seeds), each state built on the real library and cycled write->read->write against the spec as reference model",
+            "All compose descriptions within k edits (quick 1, thorough 2) of three seeds - incl. depth-3 forests, layered-product "
+            "variants, dashed top-level UIDs, labels, base products, all release/compose/variant types, 14 path categories - are "
+            "built through the public API, written, re-read and compared field by field with the spec (not with another library "
+            "output), then written again and compared byte for byte; every state is also reached from a re-loaded parent object.",
+            "Trusts the builder/observer in mc/build/ci.py and the normalisation rules quoted from the property; text alphabets "
+            "are class representatives; bounded by k and by 7 variants / depth 3.",
+            "DESIGN.md section 5, C01"),
+    "C02": ("model_checking",
+            "explicit-state BFS over images-manifest descriptions (deviation bound k), write->read->write against the spec",
+            "All manifests within k edits of three seeds (every supported type and format, null/non-null volume id and md5, 1/3 "
+            "checksum types, sizes > 2^32, unified + additional variants, aliased image objects, up to 3 images per cell, initial "
+            "header default/1.1/1.2) are built, written, re-read and compared attribute by attribute (all 15) and cell by cell "
+            "with the spec; second write byte-identical; also from re-loaded parents.",
+            "Trusts mc/build/im.py; identity collisions with different checksums are excluded here (C09).",
+            "DESIGN.md section 5, C02"),
+    "C09": ("model_checking",
+            "history BFS: all add/dumps/reload sequences up to depth d over a colliding image pool, real Images object stepped in lockstep with a reference model",
+            "Every history of depth <= 3 (quick) / 4 (thorough) over 52 adds (4 cells x 13 pool images built to collide or to "
+            "differ in exactly one identity attribute), dumps and reload, from 5 initial header versions, is replayed on a fresh "
+            "real object and compared with the model after every step (acceptance, ValueError, unchanged manifest and cells); "
+            "every source state is also written as a 1.0/1.1/1.2 document; identify_image(object) == identify_image(dict).",
+            "Trusts the 20-line model in mc/checks/c09.py; scope reading of 'format 1.1 or later' per DESIGN.md section 4.",
+            "DESIGN.md section 5, C09"),
+    "C10": ("model_checking",
+            "complete enumeration of small src-layout documents (images 1.0/1.1/1.2, rpms 0.3) and of add calls over arch classes, against a re-filing model",
+            "All 3 x 702 images documents and all 14 520 rpms 0.3 documents with <= 2 variants over {x86_64, i386, src} are "
+            "loaded by the real library and compared with the re-filing model; no src/nosrc key may survive in mapping or dump; "
+            "every add over 10 architecture classes on 3 pre-states must be accepted (binary) or refused with ValueError and no change.",
+            "Trusts the re-filing model (30 lines) written from the property text; variants with only a src entry are outside the claim.",
+            "DESIGN.md section 5, C10"),
+    "C13": ("exploration",
+            "bounded-exhaustive enumeration of a NEVRA grammar (names x epochs x versions x releases x every table arch x prefixes x .rpm)",
+            "Every string of the grammar (quick: 0.8M, thorough: 13M parses) is parsed by the real parse_nvra and compared with the "
+            "parts it was generated from; canonical re-formatting must be a fixed point and Rpms.add must file under the canonical key.",
+            "Segment/version/release shapes are class representatives of the documented character sets.",
+            "DESIGN.md section 5, C13"),
+    "C15": ("exploration",
+            "bounded-exhaustive encode->validate->decode grid plus complete decoder suffix table (all lowercase suffixes of length <= 3) and legacy documents",
+            "Compose IDs are created by the real ComposeInfo for every point of the grid (respins at both ends of every digit length "
+            "below 10^8, versions with 8/9-digit runs, all types), validated by the library's own validator and decoded back; the "
+            "decoder is run on every documented suffix and on all 18 274 other suffixes of length <= 3; legacy 0.0/0.2 documents "
+            "must expose the triple encoded in the id.",
+            "RHEL-5 compose-id hack outside the alphabet; quick tier varies one release field at a time.",
+            "DESIGN.md section 5, C15"),
     "C14": ("exploration",
             "bounded-exhaustive string enumeration against hand-written DFAs; exhaustive create->parse grid",
             "Every string up to length 6 (quick) / 8 (thorough) over one representative per character class is run through the "
